@@ -38,6 +38,12 @@ fn state() -> &'static State {
 
 const PROPS: [&str; 8] = ["C01", "C02", "C03", "C06", "C07", "C11", "C12", "C15"];
 
+/// `VERIF_FUZZ_PROP` restricts the campaign to one property's oracle.
+fn only_prop() -> Option<&'static str> {
+    static P: OnceLock<Option<&'static str>> = OnceLock::new();
+    *P.get_or_init(|| std::env::var("VERIF_FUZZ_PROP").ok().and_then(|v| PROPS.iter().copied().find(|p| *p == v)))
+}
+
 fuzz_target!(|data: &[u8]| {
     let st = state();
     if data.len() < 4 {
@@ -46,12 +52,13 @@ fuzz_target!(|data: &[u8]| {
     let mut b = Bytes::new(data);
     let si = b.below(st.subjects.len());
     let pi = b.below(PROPS.len());
+    let pi = only_prop().and_then(|p| PROPS.iter().position(|q| *q == p)).unwrap_or(pi);
     let ty = &st.u.subjects[si];
     let v = val_from_bytes(&st.u, ty, &mut b, 0);
     let mut entropy = b.rest();
     entropy.resize(96, 0x5a);
     let prop = PROPS[pi];
-    let case = if matches!(prop, "C11" | "C12" | "C15") && prop != "C12" { Val::Rec(vec![v, Val::P(entropy)]) } else { v };
+    let case = if matches!(prop, "C11" | "C15") { Val::Rec(vec![v, Val::P(entropy)]) } else { v };
     let ctx = Ctx {
         u: &st.u,
         model: Model::new(&st.u, &st.lay.0),
